@@ -33,7 +33,11 @@ DOMAIN = [0, 1, 2, 'a', None, 3.5, (1,), [1]]
 HASHABLE = [0, 1, 2, 'a', None, 3.5, (1,)]
 CHECK_RETS = [True, False, 1, 0, 'yes', '', None, [0], []]
 SCHEMA_OUT = [0, 1, 2, 'a', None, 3.5, (1,), 'S', 99, [7]]
-EXCS = [ValueError, TypeError, KeyError, ZeroDivisionError]
+class SchemaInvalid(Exception):
+    """A validation library's own error class (derived directly from Exception)."""
+
+
+EXCS = [ValueError, TypeError, KeyError, ZeroDivisionError, SchemaInvalid, AssertionError]
 
 
 def dom_index(v):
@@ -128,6 +132,8 @@ def gen(ctx):
                 'expired': pick(),
                 'stored': rng.randrange(len(DOMAIN)) if rng.random() < 0.4 else None}
         bad = [i for i, v in enumerate(DOMAIN) if not probe.ref(v)[0]]
+        if case['stored'] is not None and rng.random() < 0.4:
+            case['nosync'] = True
         r = rng.random()
         if r < 0.06:
             # the delivery of the block's own output event fails with a ValueError during put #k
@@ -223,6 +229,9 @@ def run_batch(batch, ctx):
                     Feeder(f"feed{i}", x_dest=blk, x_values=[DOMAIN[j] for j in case['uninit']],
                            x_results=val.feed_results)
                 elif case['kind'] == 'Input':
+                    if persistent and case.get('nosync'):
+                        kw['sync_state'] = False    # saved at the stop only
+                        ctx.count('persistent_without_sync_state')
                     blk = edzed.Input(f"b{i}", initdef=DOMAIN[case['initdef']],
                                       persistent=persistent, **kw)
                 else:
